@@ -40,6 +40,13 @@ func genParams(t *rng) Params {
 	p.LUni = int64(t.rg(0, hi))
 	p.TPBidi = int64(t.rg(0, hi))
 	p.TPUni = int64(t.rg(0, hi))
+	if t.rg(0, 39) == 0 { // the largest limits the configuration accepts (validateConfig caps at 2^60)
+		if t.coin() {
+			p.LBidi = maxStreamCount - int64(t.rg(0, 2))
+		} else {
+			p.LUni = maxStreamCount - int64(t.rg(0, 2))
+		}
+	}
 	if p.Persp == persClient {
 		p.ZeroRTT = t.rg(0, 5) == 0
 	}
@@ -140,7 +147,11 @@ func (m *model) genFrame(t *rng) Op {
 		if in.adv == 0 {
 			return m.genMaxStreams(t)
 		}
-		op.ID = firstIn(p, inT) + 4*(in.adv-1)
+		if in.adv-in.opened > 16 {
+			op.ID = firstIn(p, inT) + 4*(in.opened+int64(t.rg(0, 3)))
+		} else {
+			op.ID = firstIn(p, inT) + 4*(in.adv-1)
+		}
 	case 3: // a peer stream that exists or existed (live, completed-unaccepted, released)
 		if in.opened == 0 && in.adv == 0 {
 			return m.genMaxStreams(t)
